@@ -117,7 +117,13 @@ func (o *Out) Write() {
 // Rng: splitmix64, the single PRNG every random choice derives from.
 type Rng struct{ s uint64 }
 
-func NewRng(seed uint64) *Rng { return &Rng{seed*0x9E3779B97F4A7C15 + 0x1234567} }
+func NewRng(seed uint64) *Rng {
+	// scramble the seed first: consecutive seeds must not yield shifted copies of one stream
+	z := seed + 0xD1B54A32D192ED03
+	z = (z ^ (z >> 30)) * 0xBF58476D1CE4E5B9
+	z = (z ^ (z >> 27)) * 0x94D049BB133111EB
+	return &Rng{z ^ (z >> 31)}
+}
 func (r *Rng) U64() uint64 {
 	r.s += 0x9E3779B97F4A7C15
 	z := r.s
@@ -176,3 +182,13 @@ func CatchSite(f func()) (panicked bool, site, msg string) {
 }
 
 func debugStack() []byte { return debug.Stack() }
+
+// Note records what the harness is doing, so that a process death (a panic in a goroutine of the code under
+// test cannot be recovered) can be reported with the scenario that caused it.
+func (o *Out) Note(v interface{}) {
+	b, _ := json.Marshal(v)
+	os.WriteFile(o.Dir+"/current_input.json", b, 0644)
+}
+
+// Done removes the note: the command finished.
+func (o *Out) Done() { os.Remove(o.Dir + "/current_input.json") }
